@@ -269,6 +269,9 @@ VEC_RULES.update({
     'C10': 'histories with the eight aliasing call forms weighted up; non-trivial = source at/after the insertion point or a call that '
            'reallocates; distinct = effective trace hash',
     'C13': 'histories with same-type swap2 weighted up; non-trivial = swap2 executed among >=3 mutating ops; distinct = effective trace hash',
+    'C18': 'random histories on every dynamic vector configuration: whenever a growing operation other than assign changes capacity(), the new '
+           'capacity is at least 1.5 times the old one (the inline N for an inline SmallVector) unless limited by size_type - in any state reached '
+           'by moves, swaps, shrink_to_fit, failed growth; non-trivial = a capacity growth observed among >= 4 mutating ops; distinct = effective trace hash',
     'C14': 'histories over container types declaring trivially_relocatable with a RELOCATE op (memcpy to fresh storage, poison and free the '
            'source); non-trivial = a relocation followed by >=3 mutating ops on the relocated object; distinct = effective trace hash',
 })
@@ -493,24 +496,34 @@ def check_C12(tier, seed, t0):
 
 
 C18_RULE = ('11 vector/SmallVector configurations (TC/TR/NTR elements, allocators with and without reallocate, 8/16/32/64-bit size types): appending n '
-            'elements one by one for every n in 1..300, seed-derived larger n and the tier maximum (50k quick / 1M thorough), from start states '
+            'elements one by one for every n in 1..600 (1..3000 thorough), seed-derived larger n and the tier maximum (50k quick / 2M thorough), from start states '
             '{empty, inline k<N, after reserve(r), after shrink_to_fit}; oracle: capacity changes <= 2*ceil(log2 n)+4, relocated elements <= 4n+16, '
             'growth factor >= 1.5 unless clamped by size_type, allocator requests == capacity changes; reserve(r)/shrink_to_fit grid k=0..12 x r=0..40; '
+            'bulk growing operations (append(n[,v]), insert(pos,n,v), insert(pos,range), insert(pos,ilist), resize(n[,v]), append(range)) from every '
+            'inline fill with counts around N and 1.5N: new capacity >= 1.5 x old and one allocator request; shrink_to_fit on a SmallVector whose heap '
+            'buffer was taken over from an amc::vector (construction from vector&&, swap2) comes back inline when size <= N; '
             'non-trivial = n >= 16 with >= 3 reallocations, or a growing reserve; distinct = distinct grid point')
-C19_RULE = ('FlatSet sizes n=0..300 and 511..1025 (..4097 thorough), every key rank present and absent: comparator calls of find/contains/count/'
+C19_RULE = ('FlatSet sizes n=0..400, 511..4097 and seed-derived n < 2000 (thorough: 0..2000, ..65537, seed-derived n < 32000), every key rank present and absent: comparator calls of find/contains/count/'
             'lower_bound/upper_bound/equal_range and of the position search of insert/emplace/erase(key) <= 2*ceil(log2(n+1))+4; insertion with every '
-            'correct hint (lower bound; upper bound for present keys) <= 8 calls; SmallSet inline lookups <= 2N+2 for N in {1,2,4,8,16}, every fill; '
+            'correct hint (lower bound; upper bound for present keys) <= 8 calls; heterogeneous keys equivalent to 4 / 64 / all elements (transparent comparator) '
+            'within the same bound and count() equal to the run length; SmallSet inline lookups and the position searches of erase(key)/insert/emplace '
+            '<= 2N+2 for N in {1,2,4,8,16}, every fill, keys visited in ascending and descending order; SmallSet over FlatSet in its large state within the '
+            'logarithmic bound; '
             'non-trivial = n >= 64 (FlatSet) or fill >= 2 (SmallSet); distinct = distinct (configuration, n); keys_probed counts the lookups')
 
 
 def check_C18(tier, seed, t0):
     u = enum_unit('growth_c18', 'targets/growth_c18.cpp', kind='plain') if tier == 'thorough' else enum_unit('growth_c18_asan', 'targets/growth_c18.cpp', kind='asan')
-    parts = [enum_part('C18', 'growth_grid', [u], seed, tier, C18_RULE, crash_is_violation=False, exhaustive=False)]
+    parts = [enum_part('C18', 'growth_grid', [u], seed, tier, C18_RULE, crash_is_violation=False, exhaustive=False, shards=8 if tier == 'quick' else 16)]
+    cases, maxlen = budget(tier, (8000, 60), (150000, 80))
+    dyn = [n for n, _ in C.VEC_CONFIGS if not n.startswith('fcv_')]
+    parts.append(interp_part('C18', 'vector_histories', vec_jobs(dyn, cases, maxlen), seed, VEC_RULES['C18'], False))
     return finish('C18', tier, seed, 'exploration', parts, C18_RULE, ASSUME_COMMON, t0)
 
 
 def check_C19(tier, seed, t0):
-    parts = [enum_part('C19', 'lookup_grid', [enum_unit('lookup_c19', 'targets/lookup_c19.cpp', kind='plain')], seed, tier, C19_RULE, crash_is_violation=False, exhaustive=False)]
+    parts = [enum_part('C19', 'lookup_grid', [enum_unit('lookup_c19', 'targets/lookup_c19.cpp', kind='plain')], seed, tier, C19_RULE, crash_is_violation=False, exhaustive=False,
+                       shards=8 if tier == 'quick' else 16)]
     return finish('C19', tier, seed, 'exploration', parts, C19_RULE, ASSUME_COMMON + ['comparator calls are counted by a global counter inside the comparator (key_comp() copies share it)'], t0)
 
 
